@@ -90,7 +90,7 @@ def run_one(name, tier, also):
     mp = os.path.join(d, "meta.json")
     meta = json.load(open(mp))
     props = [meta["property"]] + [a for a in also if a != meta["property"]]
-    wt = "/tmp/seedrun-" + name
+    wt = "/tmp/seedrun-%d-%s" % (os.getpid(), name)
     sh("git -C %s worktree remove --force %s" % (REPO, wt))
     rc, out = sh("git -C %s worktree add -q --detach %s HEAD" % (REPO, wt))
     lines = []
